@@ -612,14 +612,7 @@ private:
 
                         nano *= uint64_t(nanos_in_second);
 
-                        if (nano < 0)
-                        {
-                            nano -= nsec;
-                        }
-                        else
-                        {
-                            nano += nsec;
-                        }
+                        nano += nsec; // seconds + nanoseconds, nanoseconds being unsigned (MessagePack timestamp 96)
 
                         text_buffer_.clear();
                         nano.write_string(text_buffer_);
